@@ -19,6 +19,11 @@ def mkgrid(rng, s, lead=(), nt=None, nph=None, **kw):
     return spherical.Grid(a, spin_weight=s, **kw)
 
 
+def rng_np(rng, shape):
+    nprng = np.random.default_rng(rng.randint(0, 2 ** 31))
+    return nprng.normal(size=shape) + 1j * nprng.normal(size=shape)
+
+
 def check(run):
     import spherical
     quick = run.tier == "quick"
@@ -242,6 +247,38 @@ def check(run):
             v("comparison-ufunc", "np.isfinite", {}, "bool array", str(r.dtype))
     except Exception as e:
         v("supported-operation-raised", "np.isfinite", {}, "bool array", repr(e))
+    # memory layouts: the same grid values in Fortran order / as axis-moved or strided views
+    from .. import layouts
+    for s1, s2 in ([(0, 0), (1, -2), (2, 2)] if quick else [(a, b) for a in range(-2, 3) for b in range(-2, 3)]):
+        big_ = max(3 * abs(s1), abs(s1) + abs(s2))      # largest |spin| any result below carries
+        nt, nph = 2 * big_ + 1, 2 * big_ + 2
+        for lead in ((), (2,)):
+            A = rng_np(rng, lead + (nt, nph))
+            B = rng_np(rng, lead + (nt, nph))
+            gB = spherical.Grid(B.copy(), spin_weight=s2)
+            OPS = [("multiply", lambda g: g * gB, lambda a: a * B, s1 + s2), ("rmultiply", lambda g: gB * g, lambda a: B * a, s1 + s2), ("conjugate", lambda g: np.conjugate(g), np.conjugate, -s1),
+                   ("square", lambda g: np.square(g), np.square, 2 * s1), ("absolute", lambda g: np.absolute(g), np.absolute, 0), ("power3", lambda g: g ** 3, lambda a: a ** 3, 3 * s1),
+                   ("negative", lambda g: -g, np.negative, s1), ("scalar", lambda g: 2.5 * g, lambda a: 2.5 * a, s1)]
+            if s1 == s2:
+                OPS += [("add", lambda g: g + gB, lambda a: a + B, s1), ("subtract", lambda g: gB - g, lambda a: B - a, s1)]
+            for lab, V in [("C", A.copy())] + list(layouts.variants(A)):
+                inp = {"s1": s1, "s2": s2, "grid_shape": [nt, nph], "lead": list(lead), "layout": lab}
+                try:
+                    g = spherical.Grid(V, spin_weight=s1)
+                except Exception as e:
+                    run.violation("valid-grid-rejected", "Grid.__new__", inp, "Grid", repr(e))
+                    continue
+                for nm, op, ref, sw in OPS:
+                    run.gap_case("memory-layouts", (s1, s2, lead, lab, nm), f"layout|{lab}")
+                    try:
+                        r = op(g)
+                    except Exception as e:
+                        run.violation("supported-operation-raised", nm, {**inp, "op": nm}, "Grid", repr(e))
+                        continue
+                    want = ref(A)
+                    if not isinstance(r, spherical.Grid) or r.spin_weight != sw or not layouts.same(r.view(np.ndarray), want):
+                        run.violation("result-depends-on-memory-layout" if lab != "C" else "values-differ-from-numpy", nm, {**inp, "op": nm}, f"numpy values, spin {sw}",
+                                      f"spin {getattr(r, 'spin_weight', None)}, values {'equal' if np.array_equal(np.asarray(r), want) else 'differ'}")
     run.assumptions += ["values compared with the same numpy ufunc applied to the raw ndarray views"]
 
 
